@@ -1,0 +1,115 @@
+//go:build verif
+// +build verif
+
+package isaacstates
+
+import (
+	"sort"
+	"sync"
+
+	"github.com/spikeekips/mitum/base"
+)
+
+// VerifVoterecord is a read-only view of one voterecords object of a
+// Ballotbox for the conformance harness (/verif, properties C04 and C05).
+// Ref is the record object itself (kept as an opaque comparable value so
+// that the harness can tell record objects apart and keep them alive).
+type VerifVoterecord struct {
+	Ref               interface{}
+	Key               string // key in Ballotbox.vrs; empty for entries of the removed list
+	StagePoint        base.StagePoint
+	FinishedID        string // ID of the voteproof the record was finished with, if any
+	Voted             []base.BallotSignFact // sorted by node
+	Ballots           []base.BallotSignFact // not yet validated (suffrage unknown), sorted by node
+	IsSuffrageConfirm bool
+}
+
+func verifVoterecordView(key string, vr *voterecords) VerifVoterecord {
+	vr.RLock()
+	defer vr.RUnlock()
+
+	v := VerifVoterecord{
+		Ref:               vr,
+		Key:               key,
+		StagePoint:        vr.sp,
+		IsSuffrageConfirm: vr.isc,
+	}
+
+	if vr.vp != nil {
+		v.FinishedID = vr.vp.ID()
+	}
+
+	for k := range vr.voted {
+		v.Voted = append(v.Voted, vr.voted[k])
+	}
+
+	for k := range vr.ballots {
+		v.Ballots = append(v.Ballots, vr.ballots[k])
+	}
+
+	sort.Slice(v.Voted, func(i, j int) bool { return v.Voted[i].Node().String() < v.Voted[j].Node().String() })
+	sort.Slice(v.Ballots, func(i, j int) bool { return v.Ballots[i].Node().String() < v.Ballots[j].Node().String() })
+
+	return v
+}
+
+// VerifRecords lists every record reachable from the ballot box by key.
+func (box *Ballotbox) VerifRecords() []VerifVoterecord {
+	var vs []VerifVoterecord
+
+	box.vrs.Traverse(func(key string, vr *voterecords) bool {
+		vs = append(vs, verifVoterecordView(key, vr))
+
+		return true
+	})
+
+	sort.Slice(vs, func(i, j int) bool { return vs[i].Key < vs[j].Key })
+
+	return vs
+}
+
+// VerifRemoved lists the records waiting for the recycle pool.
+func (box *Ballotbox) VerifRemoved() []VerifVoterecord {
+	var vs []VerifVoterecord
+
+	_ = box.removed.Get(func(removed []*voterecords, _ bool) error {
+		for i := range removed {
+			vs = append(vs, verifVoterecordView("", removed[i]))
+		}
+
+		return nil
+	})
+
+	return vs
+}
+
+var (
+	verifPoolPutsLock sync.Mutex
+	verifPoolPuts     = map[interface{}]uint64{}
+)
+
+// VerifPoolPuts returns how often each record object has been handed back to
+// the recycle pool since the process started.
+func VerifPoolPuts() map[interface{}]uint64 {
+	verifPoolPutsLock.Lock()
+	defer verifPoolPutsLock.Unlock()
+
+	m := make(map[interface{}]uint64, len(verifPoolPuts))
+	for k, v := range verifPoolPuts {
+		m[k] = v
+	}
+
+	return m
+}
+
+func init() {
+	orig := voterecordsPoolPut
+
+	voterecordsPoolPut = func(vr *voterecords) {
+		verifPoolPutsLock.Lock()
+		verifPoolPuts[vr]++
+		verifPoolPutsLock.Unlock()
+
+		orig(vr)
+	}
+}
